@@ -55,6 +55,10 @@ def run(chk: Check) -> None:
     _no_swallow(sub)
     _materialised(sub, TypeEnv(chk.repo))
     chk.adopt(sub, None, "R03.6")
+    from .c04 import Containment, _accessors
+    sub = chk.sub()
+    _accessors(sub, own, Containment(own))
+    chk.adopt(sub, lambda o: o.construct.endswith(".ir"), "R03.3")
     from .c16 import _list_hooks
     sub = chk.sub()
     _list_hooks(sub, TypeEnv(chk.repo))
